@@ -40,6 +40,7 @@ type Exec struct {
 	globalObjs    map[string]*ssa.Global
 	epochNext     map[int]*Term
 	lastChanField string
+	opaquePure    map[string]bool
 	curInstr      ssa.Instruction
 	sidSeen       map[*Term]bool
 	curNode       *node
